@@ -201,3 +201,6 @@ def run(P, R, tier):
             axis0 = any(isinstance(n, ast.Call) and src(n.func).split(".")[-1] == "mean" and any(kw.arg == "axis" and const_value(kw.value) == 0 for kw in n.keywords) for n in c.nodes)
             R.check(ok and axis0, "DEP.centre", f2.key, f"self.input_subtract = {src(v)}", "per-feature training mean", "input_subtract is not the per-feature mean of the training data (transformed data are not zero-mean)", st.lineno)
     check_transform(P, R, "whitening:Whitening.transform")
+    from ..engines import dtype as _dt
+    n_dt = _dt.check_function(P, R, "wccn:WCCN.fit", raw_params=("X",)) + _dt.check_function(P, R, "whitening:Whitening.fit", raw_params=("X",))
+    R.floor("DTYPE.raw sites (WCCN / whitening)", n_dt, 1)
